@@ -290,10 +290,31 @@ def _field_wrapper_facts(fw):
         raise Unrecognised(f"get_arg_options: enum arm changed: {texts}")
     _find_stmt(gao, "_arg_options['default'] = self.default", "get_arg_options")
 
+    # postprocess, `self.is_tuple` arm: does it leave None alone?  (old: tuple(None) -> TypeError)
+    pp = find_def(fw, "postprocess", cls="FieldWrapper")
+    tup_arm = None
+    for n in ast.walk(pp):
+        if isinstance(n, ast.If) and unparse(n.test) == "self.is_enum":
+            arms, _ = if_chain(n)
+            for t, b in arms:
+                if unparse(t) == "self.is_tuple":
+                    tup_arm = b
+    if tup_arm is None:
+        raise Unrecognised("postprocess: `self.is_tuple` arm not found")
+    tup_texts = [_norm(s) for s in tup_arm]
+    if tup_texts == ["if not isinstance(raw_parsed_value, tuple):\n    return tuple(raw_parsed_value)"]:
+        tuple_none_guard = False
+    elif tup_texts == ["if raw_parsed_value is not None and (not isinstance(raw_parsed_value, tuple)):\n    return tuple(raw_parsed_value)"]:
+        tuple_none_guard = True
+    else:
+        raise Unrecognised(f"postprocess: tuple arm changed: {tup_texts}")
+    if _norm(clean(pp.body)[-1]) != "return raw_parsed_value":
+        raise Unrecognised("postprocess: does not end with `return raw_parsed_value`")
+
     call = find_def(fw, "__call__", cls="FieldWrapper")
     _in_order(call, ["values = [values]", "value = self.postprocess(value)", "constructor_arguments[parent_dest][attribute] = value"],
               "FieldWrapper.__call__")
-    return enum_as_name, first_test
+    return enum_as_name, first_test, tuple_none_guard
 
 
 def _parsing_facts(ps, dw):
@@ -336,7 +357,7 @@ def emit(repo: str) -> str:
     table = _encode_table(enc)
     exts = _extensions(ser)
     _check_save_and_read(ser)
-    enum_as_name, sentinel = _field_wrapper_facts(fw)
+    enum_as_name, sentinel, tuple_none_guard = _field_wrapper_facts(fw)
     steps = _parsing_facts(ps, dw)
 
     tbl = "[" + "; ".join(f"({cstr(c)}, {r})" for c, r in table) + "]"
@@ -346,6 +367,7 @@ def emit(repo: str) -> str:
         f"Definition encode_table_gen : list (string * erule) := {tbl}.\n"
         f"Definition extensions_gen : list (string * codec) := {ext}.\n"
         f"Definition enum_default_as_name_gen : bool := {'true' if enum_as_name else 'false'}.\n"
+        f"Definition tuple_none_guard_gen : bool := {'true' if tuple_none_guard else 'false'}.\n"
         f"Definition default_sentinel_test_gen : string := {cstr(sentinel)}.\n"
         f"Definition fill_steps_gen : list string := {cstrs(steps + ['value = self.postprocess(value)', 'constructor_arguments[parent_dest][attribute] = value'])}.\n"
         "(* the model instantiated with the regenerated facts *)\n"
@@ -354,9 +376,9 @@ def emit(repo: str) -> str:
         "Definition file_roundtrip_gen := file_roundtrip extensions_gen.\n"
         "Definition as_argparse_default_gen := as_argparse_default enum_default_as_name_gen.\n"
         "Definition argparse_default_gen := argparse_default str2bool_gen enum_miss_cls_gen.\n"
-        "Definition finish_default_gen := finish_default str2bool_gen enum_miss_cls_gen enum_default_as_name_gen.\n"
-        "Definition value_via_config_gen := value_via_config str2bool_gen enum_miss_cls_gen enum_default_as_name_gen.\n"
-        "Definition load_cfg_gen := load_cfg str2bool_gen enum_miss_cls_gen enum_default_as_name_gen.\n"
-        "Definition config_loop_gen := config_loop str2bool_gen enum_miss_cls_gen encode_table_gen extensions_gen enum_default_as_name_gen.\n"
-        "Definition config_loop_rooted_gen := config_loop_rooted str2bool_gen enum_miss_cls_gen encode_table_gen extensions_gen enum_default_as_name_gen.\n"
+        "Definition finish_default_gen := finish_default str2bool_gen enum_miss_cls_gen enum_default_as_name_gen tuple_none_guard_gen.\n"
+        "Definition value_via_config_gen := value_via_config str2bool_gen enum_miss_cls_gen enum_default_as_name_gen tuple_none_guard_gen.\n"
+        "Definition load_cfg_gen := load_cfg str2bool_gen enum_miss_cls_gen enum_default_as_name_gen tuple_none_guard_gen.\n"
+        "Definition config_loop_gen := config_loop str2bool_gen enum_miss_cls_gen encode_table_gen extensions_gen enum_default_as_name_gen tuple_none_guard_gen.\n"
+        "Definition config_loop_rooted_gen := config_loop_rooted str2bool_gen enum_miss_cls_gen encode_table_gen extensions_gen enum_default_as_name_gen tuple_none_guard_gen.\n"
     )
